@@ -4,7 +4,7 @@
 p=$1; shift
 wt=/tmp/mut_eval3
 [ -d $wt ] || git -C /repo worktree add --detach $wt HEAD >/dev/null 2>&1
-git -C $wt checkout -q -- . && git -C $wt apply $p || { echo "patch does not apply"; exit 3; }
+git -C $wt checkout -q -- . ; git -C $wt checkout -q --detach main; git -C $wt apply $p || { echo "patch does not apply"; exit 3; }
 for c in "$@"; do
   YNCA_REPO=$wt VERIF_EVIDENCE_DIR=/tmp/try_evid /verif/check $c --tier ${TIER:-quick} 2>&1 | grep -v "^  broken\|^   " | tail -4
 done
